@@ -32,19 +32,21 @@ type IfC struct {
 }
 
 type scanExt struct {
-	fset      *token.FileSet
-	consts    map[string]int   // named byte constants
-	states    map[string]bool  // state functions (s *Scanner, c byte)
-	errWrap   map[string]bool  // stateXxxError(s, expected string) wrappers
-	order     []string
-	bodies    map[string]*ast.FuncDecl
-	cur       string
-	events    map[string]bool
-	evOrder   []string
+	fset        *token.FileSet
+	consts      map[string]int  // named byte constants
+	states      map[string]bool // state functions (s *Scanner, c byte)
+	errWrap     map[string]bool // stateXxxError(s, expected string) wrappers
+	order       []string
+	bodies      map[string]*ast.FuncDecl
+	cur         string
+	events      map[string]bool
+	evOrder     []string
+	helpers     map[string]*ast.FuncDecl // step helpers (s *Scanner, c byte) that are not states: inlined at tail calls
+	inlineDepth int
 }
 
 var knownConds = map[string]string{
-	"isDirective":                             "isDirective",
+	"isDirective": "isDirective",
 	"isDirectiveParameterHasTypeOrAnyOrEmpty": "paramsTypeOrAnyOrEmpty",
 	"isDirectiveParameterHasAnyOrEmpty":       "paramsNoAnyOrEmpty",
 	"isDirectiveParameterHasRegexNotation":    "paramsRegex",
@@ -82,7 +84,7 @@ func parseDir(fset *token.FileSet, dir string, filter func(string) bool) []*ast.
 
 func extractScanner(repo string) (*scanExt, map[string]Code) {
 	x := &scanExt{fset: token.NewFileSet(), consts: map[string]int{}, states: map[string]bool{}, errWrap: map[string]bool{},
-		bodies: map[string]*ast.FuncDecl{}, events: map[string]bool{}}
+		bodies: map[string]*ast.FuncDecl{}, events: map[string]bool{}, helpers: map[string]*ast.FuncDecl{}}
 	files := parseDir(x.fset, filepath.Join(repo, "scanner"), nil)
 	// constants (constants.go) and lexeme event names
 	for _, f := range files {
@@ -118,6 +120,13 @@ func extractScanner(repo string) (*scanExt, map[string]Code) {
 	for _, f := range files {
 		for _, d := range f.Decls {
 			fd, ok := d.(*ast.FuncDecl)
+			if ok && fd.Recv == nil && fd.Body != nil && !strings.HasPrefix(fd.Name.Name, "state") {
+				// a step helper: func name(s *Scanner, c byte) *jerr.JApiError — inlined where it is tail-called
+				if pl := fd.Type.Params.List; len(pl) == 2 && typeStr(pl[0].Type) == "*Scanner" && typeStr(pl[1].Type) == "byte" &&
+					len(pl[0].Names) == 1 && pl[0].Names[0].Name == "s" && len(pl[1].Names) == 1 {
+					x.helpers[fd.Name.Name] = fd
+				}
+			}
 			if !ok || fd.Recv != nil || !strings.HasPrefix(fd.Name.Name, "state") || fd.Body == nil {
 				continue
 			}
@@ -534,6 +543,15 @@ func (x *scanExt) ret(e ast.Expr, pre []string, c string) Code {
 		}
 	case x.errWrap[name]:
 		return &Leaf{Ops: pre, Cont: "err"}
+	case x.helpers[name] != nil:
+		// tail call of a step helper with the scanner and the current byte: its body, in place
+		if len(call.Args) == 2 && isIdent(call.Args[0], "s") && isIdent(call.Args[1], c) && x.inlineDepth < 4 {
+			h := x.helpers[name]
+			x.inlineDepth++
+			code := x.comp(h.Body.List, pre, h.Type.Params.List[1].Names[0].Name)
+			x.inlineDepth--
+			return code
+		}
 	case name == "s.step":
 		if len(call.Args) == 2 && isIdent(call.Args[0], "s") && isIdent(call.Args[1], c) {
 			return &Leaf{Ops: pre, Cont: "redispatch"}
